@@ -301,14 +301,27 @@ fn listing(ids: &mut Ids, bytes: &[u8]) -> Result<Value, String> {
 struct Out {
     events: Vec<String>,
     runs: usize,
+    // every event is also appended (and flushed) to `<out>.partial`: if the process dies inside the code under test
+    // (an allocation failure aborts without unwinding) the trace up to that point is still there to be judged
+    partial: Option<std::fs::File>,
 }
 
 impl Out {
+    fn line(&mut self, l: &str) {
+        use std::io::Write;
+        if let Some(f) = self.partial.as_mut() {
+            let _ = writeln!(f, "{l}");
+            let _ = f.flush();
+        }
+    }
     fn ev(&mut self, name: &str, mut v: Value) {
         v["ev"] = json!(name);
-        self.events.push(v.to_string());
+        let l = v.to_string();
+        self.line(&l);
+        self.events.push(l);
     }
     fn reset(&mut self) {
+        self.line("{\"ev\":\"reset\"}");
         self.events.push("{\"ev\":\"reset\"}".to_string());
         self.runs += 1;
     }
@@ -1230,7 +1243,18 @@ pub fn run(a: &Args) -> anyhow::Result<String> {
     let n = a.u64("n", 12) as usize;
     let mut rng = crate::util::rng(seed);
     let mut ids = Ids::new();
-    let mut out = Out { events: vec![], runs: 0 };
+    let out_path = a.str("out", "/dev/null");
+    let partial_path = format!("{out_path}.partial");
+    let partial = if out_path != "/dev/null" {
+        if let Some(p) = std::path::Path::new(&out_path).parent() {
+            std::fs::create_dir_all(p)?;
+        }
+        std::fs::File::create(&partial_path).ok()
+    } else {
+        None
+    };
+    let mut out = Out { events: vec![], runs: 0, partial };
+    out.line(&json!({"ev": "ShSetup", "mode": mode}).to_string());
     let rt = tokio::runtime::Builder::new_multi_thread().worker_threads(2).enable_all().build()?;
     match mode.as_str() {
         "search" => run_search(&ctl, &mut rng, &mut out, a.has("thorough")),
@@ -1273,6 +1297,7 @@ pub fn run(a: &Args) -> anyhow::Result<String> {
         writeln!(f, "{e}")?;
     }
     f.flush()?;
+    let _ = std::fs::remove_file(&partial_path);
     let sample: Vec<Value> = out.events.iter().take(6).map(|e| serde_json::from_str(e).unwrap()).collect();
     Ok(json!({"driver": "shard", "mode": mode, "runs": out.runs, "events": out.events.len(), "counts": counts, "sample": sample}).to_string())
 }
